@@ -317,24 +317,12 @@ Lemma identity_ok o :
   match o with None => true | Some i => wf_identity i end = true ->
   exists ji, plain_identity o = Ok ji /\ jidentity_small ji = true /\
     forall (A : Type) (k : option identity_rec -> res A),
-      bind (match ji with
-            | None => Ok None
-            | Some i =>
-              bind (of_hex EDeserialize (ji_pub i)) (fun pub =>
-              match ji_sigs i with
-              | None => Panic
-              | Some s =>
-                bind (of_hex EDeserialize (js_pub s)) (fun spub =>
-                bind (of_hex EDeserialize (js_id s)) (fun sid =>
-                Ok (Some {| idn_id := ji_id i; idn_type := ji_type i; idn_pub := pub;
-                            idn_sigs := Some {| ids_id := sid; ids_pub := spub |} |})))
-              end)
-            end) k = k o.
+      bind (to_plain_identity ji) k = k o.
 Proof.
   destruct o as [[id ty pk sg]|]; intros H.
   - apply wf_identity_inv in H as (s & Es & B1 & B2 & B3 & Sm). cbn [idn_sigs idn_pub idn_id idn_type] in *. subst sg.
     destruct s as [sid spk]. cbn [ids_id ids_pub] in *.
-    eexists. split; [reflexivity|]. split; [exact Sm|]. intros A k.
+    eexists. split; [reflexivity|]. split; [exact Sm|]. intros A k. unfold to_plain_identity, to_plain_identity_g.
     cbn [ji_pub ji_sigs js_pub js_id ji_id ji_type]. rewrite !of_hex_encode by assumption. reflexivity.
   - exists None. repeat split.
 Qed.
@@ -344,21 +332,37 @@ Proof. intros H0 H1. apply N.eqb_neq in H0, H1. apply N.ltb_lt. lia. Qed.
 
 Ltac jfields := cbn [j_v j_logid j_key j_sig j_payload j_next j_refs j_enc_links j_enc_nonce j_clock j_identity
                      jclock_small jclock_ok to_jclock jc_id jc_time clk_id clk_time].
+Ltac jproj := cbn [j_v j_logid j_key j_sig j_payload j_next j_refs j_enc_links j_enc_nonce j_clock j_identity].
+Ltac efields := cbn [e_v e_logid e_payload e_next e_refs e_clock e_key e_sig e_identity e_hash e_additional].
+
+(* to_plain on the struct ToJsonableEntry builds, in one step *)
+Lemma to_plain_before_fix_ok h v lg ky sg nx rf cid ctm pl idn ji el en :
+  is_bytes ky = true -> is_bytes sg = true -> is_bytes cid = true ->
+  (forall (A : Type) (k : option identity_rec -> res A),
+      bind (to_plain_identity ji) k = k idn) ->
+  to_plain_before_fix h {| j_v := v; j_logid := lg; j_key := hex_encode ky; j_sig := hex_encode sg; j_next := nx; j_refs := rf;
+                j_clock := Some (to_jclock {| clk_id := cid; clk_time := ctm |}); j_payload := pl; j_identity := ji;
+                j_enc_links := el; j_enc_nonce := en |} =
+  Ok {| e_v := v; e_logid := lg; e_payload := pl; e_next := nx; e_refs := rf;
+        e_clock := Some {| clk_id := cid; clk_time := ctm |}; e_key := ky; e_sig := sg; e_identity := idn;
+        e_hash := Some h; e_additional := [] |}.
+Proof.
+  intros B1 B2 B3 Kji. unfold to_plain_before_fix, to_plain_before_fix_g. jfields. fold to_plain_identity.
+  rewrite !of_hex_encode by assumption. cbn [bind]. rewrite Kji. reflexivity.
+Qed.
 
 Theorem entry_roundtrip cidok e h : wf_entry cidok e = true ->
   exists t, to_tree e = Ok t /\ wf t = true /\ of_tree_plain cidok h t = Ok (normal h e).
 Proof.
-  destruct e as [v lg pl nx rf ck ky sg idn hs add]. unfold wf_entry.
-  cbn [e_v e_logid e_payload e_next e_refs e_clock e_key e_sig e_identity e_additional].
+  destruct e as [v lg pl nx rf ck ky sg idn hs add]. unfold wf_entry. efields.
   destruct ck as [[cid ctm]|]; cbn [clk_id clk_time]; intros H; split_all; try discriminate.
   match goal with Hx : match idn with _ => _ end = true |- _ =>
     destruct (identity_ok idn Hx) as (ji & Eji & Sji & Kji) end.
   match goal with Hx : (1 <=? v) = true |- _ => rename Hx into Hv1 end.
   match goal with Hx : match assoc key_enc_links add with _ => _ end = true |- _ => rename Hx into Henc end.
-  unfold to_tree, normalize. cbn [e_clock bind]. unfold to_jsonable.
-  cbn [e_identity e_clock e_v e_logid e_key e_sig e_next e_refs e_payload e_additional].
+  unfold to_tree, normalize. cbn [e_clock bind]. unfold to_jsonable. efields.
   fold (plain_identity idn). rewrite Eji. cbn [bind].
-  unfold normal, has_enc. cbn [e_v e_logid e_payload e_next e_refs e_clock e_key e_sig e_identity e_additional].
+  unfold normal, has_enc, enc_pair. efields.
   unfold of_tree_plain, of_tree.
   assert (V0 : (v =? 0) = false) by (apply N.eqb_neq; apply N.leb_le in Hv1; lia). rewrite V0. cbv zeta. jfields.
   destruct (v =? 1) eqn:V1.
@@ -368,41 +372,37 @@ Proof.
     { unfold jwf. jfields. rewrite_trues. reflexivity. }
     cbn [marshal_jsonable]. rewrite Et. exists t. split; [reflexivity|]. split.
     { apply Wt. unfold jsmall. jfields. rewrite Sji. rewrite_trues. reflexivity. }
-    rewrite Dt. cbn [bind as_v1]. rewrite decrypt_none. cbn [bind]. unfold to_plain, as_v1. jfields.
-    rewrite !of_hex_encode by assumption. cbn [bind]. rewrite Kji.
+    rewrite Dt. cbn [bind as_v1]. rewrite decrypt_none. cbn [bind]. unfold to_plain, as_v1. jproj.
+    rewrite (to_plain_before_fix_ok _ _ _ _ _ _ _ _ _ _ idn) by assumption. cbn [bind is_nil andb]. efields. jfields.
     destruct (assoc key_enc_links add), (assoc key_enc_nonce add); reflexivity.
   - (* v >= 2 *)
     rewrite (lt1_of v V0 V1).
     destruct (assoc key_enc_links add) as [el|] eqn:EL, (assoc key_enc_nonce add) as [en|] eqn:EN;
+    [destruct el as [|e1 el], en as [|e2 en]| | |];
     (cbv iota; cbn [bind marshal_jsonable];
      match goal with |- context [marshal_jentry _ ?j] => destruct (jentry_rt_v2 cidok j) as (t & Et & Wt & Dt) end;
      [unfold jwf; jfields; rewrite_trues; reflexivity|];
      rewrite Et; exists t; split; [reflexivity|]; split;
      [apply Wt; unfold jsmall; jfields; rewrite Sji; split_all; rewrite_trues; reflexivity|];
-     rewrite Dt; cbn [bind]; rewrite decrypt_none; cbn [bind]; unfold to_plain; jfields;
-     rewrite !of_hex_encode by assumption; cbn [bind]; rewrite Kji; reflexivity).
+     rewrite Dt; cbn [bind]; rewrite decrypt_none; cbn [bind]; unfold to_plain;
+     rewrite (to_plain_before_fix_ok _ _ _ _ _ _ _ _ _ _ idn) by assumption; cbn [bind is_nil andb]; efields; jfields; reflexivity).
 Qed.
 
 (* ------------------------------------------------------------------------------------------ *)
-(* re-encoding what was read gives the same tree (hence the same bytes, hence the same CID),
-   provided the entry did not carry both link-encryption strings in AdditionalData *)
-Lemma if_same {A} (b : bool) (x : A) : (if b then x else x) = x.
-Proof. now destruct b. Qed.
-
-Theorem reencode_tree h e : has_enc e = false -> to_tree (normal h e) = to_tree e.
+(* re-encoding what was read gives the same tree (hence the same bytes, hence the same CID) -
+   for every entry, also one that carries the link strings *)
+Theorem reencode_tree h e : to_tree (normal h e) = to_tree e.
 Proof.
-  destruct e as [v lg pl nx rf ck ky sg idn hs add]. unfold has_enc, to_tree, normal, normalize, has_enc.
-  cbn [e_v e_logid e_payload e_next e_refs e_clock e_key e_sig e_identity e_additional].
-  intros H. destruct ck as [c|]; [|reflexivity]. cbn [bind]. unfold to_jsonable.
-  cbn [e_v e_logid e_payload e_next e_refs e_clock e_key e_sig e_identity e_additional assoc].
+  destruct e as [v lg pl nx rf ck ky sg idn hs add]. unfold to_tree, normal, normalize, has_enc, enc_pair. efields.
+  destruct ck as [c|]; [|reflexivity]. cbn [bind]. unfold to_jsonable. efields.
   destruct (match idn with Some i => bind (to_jidentity i) (fun ji => Ok (Some ji)) | None => Ok None end) as [ji| |];
     cbn [bind]; try reflexivity.
   destruct (N.eqb_spec v 0) as [->|V0]; [reflexivity|].
   destruct (N.eqb_spec v 1) as [->|V1].
   - change (1 <? 1) with false. cbv iota.
     destruct (assoc key_enc_links add), (assoc key_enc_nonce add); reflexivity.
-  - assert (L : (1 <? v) = true) by (apply N.ltb_lt; lia). rewrite L in *. cbv iota.
-    destruct (assoc key_enc_links add), (assoc key_enc_nonce add); try discriminate; reflexivity.
+  - assert (L : (1 <? v) = true) by (apply N.ltb_lt; lia). rewrite L. cbv iota.
+    destruct (assoc key_enc_links add) as [[|e1 el]|], (assoc key_enc_nonce add) as [[|e2 en]|]; reflexivity.
 Qed.
 
 (* the written view depends on AdditionalData only through two lookups: iteration order of the Go
@@ -413,11 +413,9 @@ Theorem to_tree_additional_order e add' :
              e_clock := e_clock e; e_key := e_key e; e_sig := e_sig e; e_identity := e_identity e;
              e_hash := e_hash e; e_additional := add' |} = to_tree e.
 Proof.
-  intros ND P. destruct e as [v lg pl nx rf ck ky sg idn hs add].
-  cbn [e_v e_logid e_payload e_next e_refs e_clock e_key e_sig e_identity e_hash e_additional] in *.
-  unfold to_tree, normalize. cbn [e_v e_logid e_payload e_next e_refs e_clock e_key e_sig e_identity e_additional].
-  destruct ck as [c|]; [|reflexivity]. cbn [bind]. unfold to_jsonable.
-  cbn [e_v e_logid e_payload e_next e_refs e_clock e_key e_sig e_identity e_additional].
+  intros ND P. destruct e as [v lg pl nx rf ck ky sg idn hs add]. efields. cbn [e_additional] in *.
+  unfold to_tree, normalize. efields.
+  destruct ck as [c|]; [|reflexivity]. cbn [bind]. unfold to_jsonable. efields.
   rewrite <- (assoc_perm key_enc_links add add' ND P), <- (assoc_perm key_enc_nonce add add' ND P). reflexivity.
 Qed.
 
@@ -454,8 +452,6 @@ Qed.
 Lemma assoc_set_other {V} k k' (v : V) l : bytes_eqb k k' = false -> assoc k (set_assoc k' v l) = assoc k l.
 Proof. intros Hne. unfold set_assoc. cbn [assoc]. rewrite Hne. now apply assoc_filter_other. Qed.
 
-Notation strip := strip_additional.
-
 Section LinkProofs.
   Variable cidok : bytes -> bool.
   Variable K : Type.
@@ -477,17 +473,22 @@ Section LinkProofs.
     exists lt. split; [exact E|]. split; [apply W; reflexivity|exact D].
   Qed.
 
-  Theorem link_roundtrip_core k e h lt nonce :
+  (* common part: the stored tree of a PreSign'ed entry, and the struct the reader gets after
+     DecryptLinks with the same key *)
+  Lemma link_write_read k e lt nonce :
     wf_entry cidok e = true -> (1 <? e_v e) = true ->
     links_tree (e_next e) (e_refs e) = Ok lt ->
     assoc key_enc_links (e_additional e) = Some (b64enc (seal k nonce (encode lt))) ->
     assoc key_enc_nonce (e_additional e) = Some (b64enc nonce) ->
     is_nil (b64enc (seal k nonce (encode lt))) = false -> is_nil (b64enc nonce) = false ->
-    exists t, to_tree e = Ok t /\ wf t = true /\
-              of_tree cidok K open_ b64dec (Some k) h t = Ok (strip h e).
+    exists t c ji, e_clock e = Some c /\ plain_identity (e_identity e) = Ok ji /\
+      to_tree e = Ok t /\ wf t = true /\
+      bind (unmarshal_jentry cidok t) (decrypt_links cidok K open_ b64dec (Some k)) =
+        Ok {| j_v := e_v e; j_logid := e_logid e; j_key := hex_encode (e_key e); j_sig := hex_encode (e_sig e);
+              j_next := e_next e; j_refs := e_refs e; j_clock := Some (to_jclock c); j_payload := e_payload e;
+              j_identity := ji; j_enc_links := b64enc (seal k nonce (encode lt)); j_enc_nonce := b64enc nonce |}.
   Proof.
-    destruct e as [v lg pl nx rf ck ky sg idn hs add]. unfold wf_entry.
-    cbn [e_v e_logid e_payload e_next e_refs e_clock e_key e_sig e_identity e_additional].
+    destruct e as [v lg pl nx rf ck ky sg idn hs add]. unfold wf_entry. efields.
     destruct ck as [[cid ctm]|]; cbn [clk_id clk_time]; intros H; split_all; try discriminate.
     intros V2 LT EL EN NL NN.
     match goal with Hx : match idn with _ => _ end = true |- _ =>
@@ -496,21 +497,88 @@ Section LinkProofs.
     match goal with Hx : wf_cids cidok rf = true |- _ => rename Hx into Hrf end.
     destruct (links_struct_rt nx rf Hnx Hrf) as (lt' & LT' & Wlt & Dlt).
     rewrite LT in LT'. inversion LT'; subst lt'. clear LT'.
-    unfold to_tree, normalize. cbn [e_clock bind]. unfold to_jsonable.
-    cbn [e_identity e_clock e_v e_logid e_key e_sig e_next e_refs e_payload e_additional].
+    unfold to_tree, normalize. cbn [e_clock bind]. unfold to_jsonable. efields.
     fold (plain_identity idn). rewrite Eji. cbn [bind].
     assert (V0 : (v =? 0) = false) by (apply N.eqb_neq; apply N.ltb_lt in V2; lia).
     assert (V1 : (v =? 1) = false) by (apply N.eqb_neq; apply N.ltb_lt in V2; lia).
-    rewrite V0, V1, V2, EL, EN in *. cbv zeta. jfields. cbv iota. cbn [bind marshal_jsonable].
+    rewrite V0, V1, EL, EN in *. cbv zeta. jfields. cbv iota. cbn [bind marshal_jsonable].
     match goal with |- context [marshal_jentry _ ?j] => destruct (jentry_rt_v2 cidok j) as (t & Et & Wt & Dt) end.
     { unfold jwf; jfields; rewrite_trues; reflexivity. }
-    rewrite Et. exists t. split; [reflexivity|]. split.
+    rewrite Et. exists t, {| clk_id := cid; clk_time := ctm |}, ji.
+    split; [reflexivity|]. split; [reflexivity|]. split; [reflexivity|]. split.
     { apply Wt; unfold jsmall; jfields; rewrite Sji; split_all; rewrite_trues; reflexivity. }
-    unfold of_tree. rewrite Dt. cbn [bind]. unfold decrypt_links. jfields.
+    rewrite Dt. cbn [bind]. unfold decrypt_links. jfields.
     rewrite NL, NN. cbn [orb]. rewrite !b64_inv, open_seal, (decode_all_encode lt Wlt), Dlt.
-    cbn [bind]. unfold to_plain, with_links, links_struct, strip. jfields.
-    cbn [e_v e_logid e_payload e_next e_refs e_clock e_key e_sig e_identity e_additional].
-    rewrite !of_hex_encode by assumption. cbn [bind]. rewrite Kji. reflexivity.
+    unfold with_links, links_struct. jfields. reflexivity.
+  Qed.
+
+  (* written and read with the same key: every field; AdditionalData = the stored pair *)
+  Theorem link_roundtrip_core k e h lt nonce :
+    wf_entry cidok e = true -> (1 <? e_v e) = true ->
+    links_tree (e_next e) (e_refs e) = Ok lt ->
+    assoc key_enc_links (e_additional e) = Some (b64enc (seal k nonce (encode lt))) ->
+    assoc key_enc_nonce (e_additional e) = Some (b64enc nonce) ->
+    is_nil (b64enc (seal k nonce (encode lt))) = false -> is_nil (b64enc nonce) = false ->
+    exists t, to_tree e = Ok t /\ wf t = true /\
+              of_tree cidok K open_ b64dec (Some k) h t = Ok (strip_additional h e) /\
+              to_tree (strip_additional h e) = Ok t.
+  Proof.
+    intros W V2 LT EL EN NL NN.
+    destruct (link_write_read k e lt nonce W V2 LT EL EN NL NN) as (t & c & ji & Ec & Eji & Et & Wt & Dj).
+    exists t. split; [exact Et|]. split; [exact Wt|].
+    assert (R : of_tree cidok K open_ b64dec (Some k) h t = Ok (strip_additional h e)).
+    { unfold of_tree.
+      change (bind (unmarshal_jentry cidok t) (fun j => bind (decrypt_links cidok K open_ b64dec (Some k) j) (to_plain h)))
+        with (bind (unmarshal_jentry cidok t) (fun j => bind (decrypt_links cidok K open_ b64dec (Some k) j) (to_plain h))).
+      destruct (unmarshal_jentry cidok t) as [j0| |]; cbn [bind] in Dj |- *; try discriminate.
+      rewrite Dj. cbn [bind].
+      destruct e as [v lg pl nx rf ck ky sg idn hs add]. efields. cbn [e_clock e_identity] in *. subst ck.
+      destruct c as [cid ctm].
+      unfold wf_entry in W. efields. cbn [e_v e_logid e_payload e_next e_refs e_clock e_key e_sig e_identity e_additional clk_id clk_time] in W.
+      split_all.
+      match goal with Hx : match idn with _ => _ end = true |- _ =>
+        destruct (identity_ok idn Hx) as (ji' & Eji' & _ & Kji) end.
+      rewrite Eji in Eji'. inversion Eji'; subst ji'.
+      unfold to_plain. rewrite (to_plain_before_fix_ok _ _ _ _ _ _ _ _ _ _ idn) by assumption. cbn [bind]. jfields. rewrite NL. cbn [andb].
+      unfold strip_additional, enc_pair. efields. cbn [e_additional e_v] in *. rewrite EL, EN, V2, NL. reflexivity. }
+    split; [exact R|].
+    (* re-encoding: strip_additional keeps exactly what to_tree looks at *)
+    rewrite <- Et. destruct e as [v lg pl nx rf ck ky sg idn hs add].
+    unfold strip_additional, enc_pair, to_tree, normalize. efields. cbn [e_additional e_v] in *.
+    destruct ck as [c0|]; [|reflexivity]. cbn [bind]. unfold to_jsonable. efields.
+    rewrite EL, EN, V2, NL. cbn [andb].
+    change (assoc key_enc_links [(key_enc_links, b64enc (seal k nonce (encode lt))); (key_enc_nonce, b64enc nonce)])
+      with (Some (b64enc (seal k nonce (encode lt)))).
+    change (assoc key_enc_nonce [(key_enc_links, b64enc (seal k nonce (encode lt))); (key_enc_nonce, b64enc nonce)])
+      with (Some (b64enc nonce)).
+    reflexivity.
+  Qed.
+
+  (* regression witness: before 7c07d71 the same read returned an empty AdditionalData *)
+  Theorem link_roundtrip_before_fix k e h lt nonce :
+    wf_entry cidok e = true -> (1 <? e_v e) = true ->
+    links_tree (e_next e) (e_refs e) = Ok lt ->
+    assoc key_enc_links (e_additional e) = Some (b64enc (seal k nonce (encode lt))) ->
+    assoc key_enc_nonce (e_additional e) = Some (b64enc nonce) ->
+    is_nil (b64enc (seal k nonce (encode lt))) = false -> is_nil (b64enc nonce) = false ->
+    exists t e', to_tree e = Ok t /\ of_tree_before_fix cidok K open_ b64dec (Some k) h t = Ok e' /\
+                 e_additional e' = [] /\ e_additional e <> [].
+  Proof.
+    intros W V2 LT EL EN NL NN.
+    destruct (link_write_read k e lt nonce W V2 LT EL EN NL NN) as (t & c & ji & Ec & Eji & Et & Wt & Dj).
+    exists t. unfold of_tree_before_fix.
+    destruct (unmarshal_jentry cidok t) as [j0| |]; cbn [bind] in Dj |- *; try discriminate.
+    rewrite Dj. cbn [bind].
+    destruct e as [v lg pl nx rf ck ky sg idn hs add]. efields. cbn [e_clock e_identity e_additional] in *. subst ck.
+    destruct c as [cid ctm].
+    unfold wf_entry in W. cbn [e_v e_logid e_payload e_next e_refs e_clock e_key e_sig e_identity e_additional clk_id clk_time] in W.
+    split_all.
+    match goal with Hx : match idn with _ => _ end = true |- _ =>
+      destruct (identity_ok idn Hx) as (ji' & Eji' & _ & Kji) end.
+    rewrite Eji in Eji'. inversion Eji'; subst ji'.
+    rewrite (to_plain_before_fix_ok _ _ _ _ _ _ _ _ _ _ idn) by assumption.
+    eexists. split; [exact Et|]. split; [reflexivity|]. split; [reflexivity|].
+    intros E. rewrite E in EL. discriminate.
   Qed.
 
   (* what PreSign attaches is exactly what the core theorem needs *)
@@ -530,102 +598,7 @@ Section LinkProofs.
       cbn [with_additional e_next e_refs e_v e_additional copy_entry].
       repeat split; auto.
   Qed.
-
-  (* the repaired reader (to_plain_fixed) also restores the two stored strings *)
-  Theorem link_roundtrip_core_fixed k e h lt nonce :
-    wf_entry cidok e = true -> (1 <? e_v e) = true ->
-    links_tree (e_next e) (e_refs e) = Ok lt ->
-    assoc key_enc_links (e_additional e) = Some (b64enc (seal k nonce (encode lt))) ->
-    assoc key_enc_nonce (e_additional e) = Some (b64enc nonce) ->
-    is_nil (b64enc (seal k nonce (encode lt))) = false -> is_nil (b64enc nonce) = false ->
-    exists t e', to_tree e = Ok t /\
-              of_tree_fixed cidok K open_ b64dec (Some k) h t = Ok e' /\
-              e_next e' = e_next e /\ e_refs e' = e_refs e /\
-              e_additional e' = [(key_enc_links, b64enc (seal k nonce (encode lt))); (key_enc_nonce, b64enc nonce)] /\
-              to_tree e' = to_tree e.
-  Proof.
-    destruct e as [v lg pl nx rf ck ky sg idn hs add]. unfold wf_entry.
-    cbn [e_v e_logid e_payload e_next e_refs e_clock e_key e_sig e_identity e_additional].
-    destruct ck as [[cid ctm]|]; cbn [clk_id clk_time]; intros H; split_all; try discriminate.
-    intros V2 LT EL EN NL NN.
-    match goal with Hx : match idn with _ => _ end = true |- _ =>
-      destruct (identity_ok idn Hx) as (ji & Eji & Sji & Kji) end.
-    match goal with Hx : wf_cids cidok nx = true |- _ => rename Hx into Hnx end.
-    match goal with Hx : wf_cids cidok rf = true |- _ => rename Hx into Hrf end.
-    destruct (links_struct_rt nx rf Hnx Hrf) as (lt' & LT' & Wlt & Dlt).
-    rewrite LT in LT'. inversion LT'; subst lt'. clear LT'.
-    unfold to_tree at 1 3, normalize. cbn [e_clock bind]. unfold to_jsonable.
-    cbn [e_identity e_clock e_v e_logid e_key e_sig e_next e_refs e_payload e_additional].
-    fold (plain_identity idn). rewrite Eji. cbn [bind].
-    assert (V0 : (v =? 0) = false) by (apply N.eqb_neq; apply N.ltb_lt in V2; lia).
-    assert (V1 : (v =? 1) = false) by (apply N.eqb_neq; apply N.ltb_lt in V2; lia).
-    rewrite V0, V1, V2, EL, EN in *. cbv zeta. jfields. cbv iota. cbn [bind marshal_jsonable].
-    match goal with |- context [marshal_jentry _ ?j] => destruct (jentry_rt_v2 cidok j) as (t & Et & Wt & Dt) end.
-    { unfold jwf; jfields; rewrite_trues; reflexivity. }
-    rewrite Et. exists t. eexists. split; [reflexivity|].
-    unfold of_tree_fixed. rewrite Dt. cbn [bind]. unfold decrypt_links. jfields.
-    rewrite NL, NN. cbn [orb]. rewrite !b64_inv, open_seal, (decode_all_encode lt Wlt), Dlt.
-    cbn [bind]. unfold to_plain_fixed, to_plain, with_links, links_struct. jfields.
-    rewrite !of_hex_encode by assumption. cbn [bind]. rewrite Kji. cbn [bind].
-    cbn [e_v e_logid e_payload e_next e_refs e_clock e_key e_sig e_identity e_hash e_additional].
-    rewrite NL. cbn [andb]. split; [reflexivity|].
-    cbn [e_next e_refs e_additional]. repeat split.
-    unfold to_tree, normalize. cbn [e_clock bind]. unfold to_jsonable.
-    cbn [e_identity e_clock e_v e_logid e_key e_sig e_next e_refs e_payload e_additional].
-    fold (plain_identity idn). rewrite Eji. cbn [bind]. rewrite V0, V1, V2.
-    change (assoc key_enc_links [(key_enc_links, b64enc (seal k nonce (encode lt))); (key_enc_nonce, b64enc nonce)])
-      with (Some (b64enc (seal k nonce (encode lt)))).
-    change (assoc key_enc_nonce [(key_enc_links, b64enc (seal k nonce (encode lt))); (key_enc_nonce, b64enc nonce)])
-      with (Some (b64enc nonce)).
-    cbv zeta. jfields. cbv iota. cbn [bind marshal_jsonable]. rewrite Et. reflexivity.
-  Qed.
 End LinkProofs.
-
-(* ------------------------------------------------------------------------------------------ *)
-(* repaired reader, default codec: re-encoding what was read gives the same tree for EVERY
-   well-formed entry, also one that carries link-encryption strings *)
-Theorem entry_reencode_fixed cidok e h : wf_entry cidok e = true ->
-  exists t e', to_tree e = Ok t /\ of_tree_fixed cidok unit (fun _ _ _ => None) (fun _ => None) None h t = Ok e' /\
-               to_tree e' = to_tree e.
-Proof.
-  destruct e as [v lg pl nx rf ck ky sg idn hs add]. unfold wf_entry.
-  cbn [e_v e_logid e_payload e_next e_refs e_clock e_key e_sig e_identity e_additional].
-  destruct ck as [[cid ctm]|]; cbn [clk_id clk_time]; intros H; split_all; try discriminate.
-  match goal with Hx : match idn with _ => _ end = true |- _ =>
-    destruct (identity_ok idn Hx) as (ji & Eji & Sji & Kji) end.
-  match goal with Hx : (1 <=? v) = true |- _ => rename Hx into Hv1 end.
-  match goal with Hx : match assoc key_enc_links add with _ => _ end = true |- _ => rename Hx into Henc end.
-  unfold to_tree, normalize. cbn [e_clock bind]. unfold to_jsonable.
-  cbn [e_identity e_clock e_v e_logid e_key e_sig e_next e_refs e_payload e_additional].
-  fold (plain_identity idn). rewrite Eji. cbn [bind].
-  unfold of_tree_fixed.
-  assert (V0 : (v =? 0) = false) by (apply N.eqb_neq; apply N.leb_le in Hv1; lia). rewrite V0. cbv zeta. jfields.
-  destruct (v =? 1) eqn:V1.
-  - apply N.eqb_eq in V1. subst v. change (1 <? 1) with false. change (1 =? 1) with true. cbv iota. cbn [bind].
-    match goal with |- context [JV1 ?j] => destruct (jentry_rt_v1 cidok j) as (t & Et & Wt & Dt) end.
-    { unfold jwf. jfields. rewrite_trues. reflexivity. }
-    cbn [marshal_jsonable]. rewrite Et. exists t. eexists. split; [reflexivity|].
-    rewrite Dt. cbn [bind as_v1]. rewrite decrypt_none. cbn [bind]. unfold to_plain_fixed, to_plain, as_v1. jfields.
-    rewrite !of_hex_encode by assumption. cbn [bind]. rewrite Kji. cbn [bind is_nil andb].
-    split; [reflexivity|].
-    cbn [e_v e_logid e_payload e_next e_refs e_clock e_key e_sig e_identity e_additional bind].
-    unfold plain_identity in Eji. rewrite Eji. cbn [bind assoc]. change (1 =? 0) with false. change (1 =? 1) with true.
-    change (1 <? 1) with false. cbv iota zeta. jfields. cbn [bind marshal_jsonable]. rewrite Et. reflexivity.
-  - pose proof (lt1_of v V0 V1) as V2. rewrite V2.
-    destruct (assoc key_enc_links add) as [el|] eqn:EL, (assoc key_enc_nonce add) as [en|] eqn:EN;
-    [destruct el as [|e1 el], en as [|e2 en]| | |];
-    (cbv iota; cbn [bind marshal_jsonable];
-     match goal with |- context [marshal_jentry _ ?j] => destruct (jentry_rt_v2 cidok j) as (t & Et & Wt & Dt) end;
-     [unfold jwf; jfields; rewrite_trues; reflexivity|];
-     rewrite Et; exists t; eexists; split; [reflexivity|];
-     rewrite Dt; cbn [bind]; rewrite decrypt_none; cbn [bind]; unfold to_plain_fixed, to_plain; jfields;
-     rewrite !of_hex_encode by assumption; cbn [bind]; rewrite Kji; cbn [bind is_nil andb];
-     split; [reflexivity|];
-     cbn [e_v e_logid e_payload e_next e_refs e_clock e_key e_sig e_identity e_additional bind];
-     unfold plain_identity in Eji; rewrite Eji; cbn [bind]; rewrite V0, V1, ?V2;
-     cbn [assoc bytes_eqb N.eqb Pos.eqb andb key_enc_links key_enc_nonce];
-     cbv iota zeta; jfields; cbn [bind marshal_jsonable]; rewrite Et; reflexivity).
-Qed.
 
 (* ------------------------------------------------------------------------------------------ *)
 (* legacy v0, struct level *)
@@ -642,10 +615,10 @@ Section V0Proofs.
     exists j, to_jsonable_v0 cid_string e = Ok j /\ v0_to_plain cid_parse h j = Ok (normal_v0 h e).
   Proof.
     intros Ec Bc Bk Bs. unfold to_jsonable_v0. rewrite Ec. eexists. split; [reflexivity|].
-    unfold v0_to_plain, normal_v0. cbn [v0_hash v0_clock v0_sig v0_key v0_next v0_v v0_id v0_payload to_jclock jc_id jc_time].
+    unfold v0_to_plain, v0_to_plain_g, normal_v0. cbn [v0_hash v0_clock v0_sig v0_key v0_next v0_v v0_id v0_payload to_jclock jc_id jc_time].
     assert (Hh : match match e_hash e with Some h0 => Some (cid_string h0) | None => None end with
                  | Some s => match cid_parse s with Some _ => Ok tt | None => Err EDeserialize end
-                 | None => Ok tt end = Ok tt).
+                 | None => if Gen.Guards.nil_panics "EntryV0.ToPlain" "Hash" then Panic else Ok tt end = Ok tt).
     { destruct (e_hash e); [now rewrite parse_string|reflexivity]. }
     rewrite Hh. cbn [bind]. rewrite !of_hex_encode by assumption. cbn [bind]. rewrite map_opt_parse.
     rewrite Ec. destruct c; reflexivity.
@@ -662,11 +635,11 @@ Proof.
   now rewrite (decode_all_encode t Wt).
 Qed.
 
-Theorem entry_reencode_bytes cidok e h : wf_entry cidok e = true -> has_enc e = false ->
+Theorem entry_reencode_bytes cidok e h : wf_entry cidok e = true ->
   exists b e', entry_block e = Ok b /\ of_block_plain cidok h b = Ok e' /\ entry_block e' = Ok b.
 Proof.
-  intros H Hn. destruct (entry_bytes_roundtrip cidok e h H) as (b & Eb & Db).
-  exists b, (normal h e). repeat split; auto. unfold entry_block in *. now rewrite (reencode_tree h e Hn).
+  intros H. destruct (entry_bytes_roundtrip cidok e h H) as (b & Eb & Db).
+  exists b, (normal h e). repeat split; auto. unfold entry_block in *. now rewrite (reencode_tree h e).
 Qed.
 
 Theorem manifest_bytes_roundtrip cidok id heads : wf_cids cidok heads = true -> small id = true ->
@@ -688,27 +661,32 @@ Definition plain_entry (e : entry) : bool :=
 
 Lemma normal_exact h e : plain_entry e = true -> normal h e = set_hash h e.
 Proof.
-  destruct e as [v lg pl nx rf ck ky sg idn hs add]. unfold plain_entry, normal, set_hash, has_enc.
-  cbn [e_v e_logid e_payload e_next e_refs e_clock e_key e_sig e_identity e_additional].
+  destruct e as [v lg pl nx rf ck ky sg idn hs add]. unfold plain_entry, normal, set_hash, has_enc, enc_pair. efields.
   intros H. apply andb_true_iff in H as [Ha Hr]. destruct add; [|discriminate]. cbn [assoc].
   destruct (1 <? v); [reflexivity|]. destruct rf; [discriminate|reflexivity].
 Qed.
 
 (* ------------------------------------------------------------------------------------------ *)
-(* witnesses for what is NOT preserved on the unchanged tree *)
+(* regression witness (behaviour before 7c07d71) *)
 Definition toy_entry (add : list (bytes * bytes)) : entry :=
   {| e_v := 2; e_logid := [65]; e_payload := [104; 255; 1]; e_next := Some [[1; 113; 18; 1; 7]]; e_refs := Some [];
      e_clock := Some {| clk_id := [4; 200]; clk_time := 3%Z |}; e_key := [4; 200]; e_sig := [48; 1];
      e_identity := None; e_hash := None; e_additional := add |}.
 
-(* default codec, entry carrying both link strings: the decoded entry re-encodes differently *)
-Lemma reencode_with_enc_strings_differs :
+(* default codec, entry carrying both link strings: what the OLD reader returned re-encoded to a
+   different block; what the reader returns now re-encodes to the same one *)
+Lemma reencode_with_enc_strings_before_fix :
   let e := toy_entry [(key_enc_links, [120]); (key_enc_nonce, [121])] in
   wf_entry (fun _ => true) e = true /\ has_enc e = true /\
-  exists b b', entry_block e = Ok b /\ of_block_plain (fun _ => true) [9] b = Ok (normal [9] e) /\
-               entry_block (normal [9] e) = Ok b' /\ b <> b'.
+  exists t e_old e_new b b',
+    to_tree e = Ok t /\ entry_block e = Ok b /\
+    of_tree_before_fix (fun _ => true) unit (fun _ _ _ => None) (fun _ => None) None [9] t = Ok e_old /\
+    entry_block e_old = Ok b' /\ b <> b' /\
+    of_tree_plain (fun _ => true) [9] t = Ok e_new /\ entry_block e_new = Ok b.
 Proof.
   cbv zeta. split; [reflexivity|]. split; [reflexivity|].
-  eexists. eexists. split; [vm_compute; reflexivity|]. split; [vm_compute; reflexivity|].
-  split; [vm_compute; reflexivity|]. intros E. apply (f_equal (@List.length N)) in E. vm_compute in E. discriminate.
+  do 5 eexists. split; [vm_compute; reflexivity|]. split; [vm_compute; reflexivity|].
+  split; [vm_compute; reflexivity|]. split; [vm_compute; reflexivity|].
+  split; [intros E; apply (f_equal (@List.length N)) in E; vm_compute in E; discriminate|].
+  split; [vm_compute; reflexivity|]. vm_compute. reflexivity.
 Qed.
